@@ -252,6 +252,7 @@ func runC19(r *Run) {
 	r.guardOb("C19.frozen-staking", p.deliverEntry("WITHDRAW"), "withdraw effects", callsTo(fnDelegWithdr, fnBalAdd), nf, "a guilty validator can withdraw")
 	checkCreateSuspicious(r)
 	checkCleanTracker(r)
+	checkNoDowngrade(r)
 	r.Floor("C19.", 30)
 }
 
